@@ -84,6 +84,9 @@ def decode(line):
 def check_line(ctx, order, line, why):
     exp = decode(line)
     gk, gd = linelang.claimant("events", line, order)
+    if gk == "<no-api>":
+        ctx.hist["line_parser_api_unavailable(end-to-end replay only)"] += 1
+        return
     got = None if gk is None else (list(gd) if isinstance(gd, tuple) else [gd.tick, gd.value])
     ctx.case(("line", line), sample=lambda: dict(line=line, expected=exp, why=why))
     ctx.evaluations += 1
@@ -184,6 +187,13 @@ def _orders(ctx):
     for n in range(1, 5):
         for perm in itertools.permutations(pool, n):
             check_e2e(ctx, list(perm), "line order")
+    # lines of none of the three kinds between / after classified ones: they land in no list and do
+    # not disturb the lines around them
+    strays = ["garbage", "", "0 = E solo", "7 = B 120000", '8 = E "unterminated', "= E \"x\""]
+    for good in pool[:4]:
+        for st in strays:
+            for body in ([good, st], [st, good], [good, st, st], [pool[0], good, st, pool[2]], [good, st, pool[1], st]):
+                check_e2e(ctx, body, "stray line among classified lines")
     sync = ("0 = TS 4", "0 = B 120000", "3 = B 60000", "5 = B 200000")
     for n in (2, 3):
         for idx in itertools.combinations(range(6), n):
@@ -194,6 +204,8 @@ def replay(case):
     order = _order()
     if case.get("kind") == "line":
         gk, gd = linelang.claimant("events", case["line"], order)
+        if gk == "<no-api>":
+            return []
         got = None if gk is None else (list(gd) if isinstance(gd, tuple) else [gd.tick, gd.value])
         bad = (gk, got) != (case["expected_kind"], case["expected"])
         return [dict(key="classification", msg="still fails: %r %r" % (gk, got), case=case)] if bad else []
